@@ -124,18 +124,194 @@ Proof.
   destruct (join_head (c :: r) c r eq_refl) as (t & -> & _). destruct c; [congruence | discriminate].
 Qed.
 
-(* get_parent_and_file_name on structured paths *)
-Lemma parent_and_file_multi dir name tr : dir <> [] -> Forall plainP (dir ++ [name]) ->
-  parent_and_file (render (dir ++ [name]) tr) = PFOk (join dir) name.
+(* ---- strings are lists of scalar values; OsStr::to_str on slices of a valid string ---- *)
+Definition substring (v s : str) : Prop := exists a b, s = a ++ v ++ b.
+
+Lemma valid_str_app a b : valid_str (a ++ b) = andb (valid_str a) (valid_str b).
+Proof. apply forallb_app. Qed.
+Lemma valid_substring v s : valid_str s = true -> substring v s -> valid_str v = true.
 Proof.
-  intros Hne Hp. unfold parent_and_file. rewrite classify_render; [|destruct dir; discriminate | exact Hp].
-  rewrite rev_app_distr. cbn [rev app]. rewrite rev_involutive.
-  apply Forall_app in Hp. destruct Hp as [Hd _].
-  destruct (str_eqb_spec (join dir) []) as [E|E]; [exfalso; exact (join_nonempty dir Hne Hd E) | reflexivity].
+  intros H (a & b & ->). rewrite !valid_str_app in H. apply andb_true_iff in H. destruct H as (_ & H).
+  apply andb_true_iff in H. apply H.
+Qed.
+(* the unwrap sites, whatever slice of the caller's string reaches them *)
+Lemma os_to_str_substring v s : valid_str s = true -> substring v s -> os_to_str v = Some v.
+Proof. intros H Hs. unfold os_to_str. rewrite (valid_substring v s H Hs). reflexivity. Qed.
+
+Lemma split_slash_ne s : split_slash s <> [].
+Proof. destruct s as [|c r]; cbn [split_slash]; [discriminate|]. destruct (c =? SLASH); [discriminate|]. destruct (split_slash r); discriminate. Qed.
+
+Lemma join_split s : join (split_slash s) = s.
+Proof.
+  induction s as [|c r IH]; [reflexivity|]. cbn [split_slash].
+  pose proof (split_slash_ne r) as Hne.
+  destruct (split_slash r) as [|h t] eqn:Es; [congruence|].
+  destruct (N.eqb_spec c SLASH) as [->|E].
+  - change (join ([] :: h :: t)) with ([] ++ SLASH :: join (h :: t)). rewrite IH. reflexivity.
+  - destruct t as [|h2 t2].
+    + cbn [join] in *. subst r. reflexivity.
+    + change (join ((c :: h) :: h2 :: t2)) with ((c :: h) ++ SLASH :: join (h2 :: t2)).
+      change (join (h :: h2 :: t2)) with (h ++ SLASH :: join (h2 :: t2)) in IH. rewrite <- IH. reflexivity.
 Qed.
 
-Lemma parent_and_file_single c tr : plainP c -> parent_and_file (render [c] tr) = PFOk c [].
+Lemma join_snoc dir name : dir <> [] -> join (dir ++ [name]) = join dir ++ SLASH :: name.
 Proof.
-  intros Hc. unfold parent_and_file. rewrite classify_render; [|discriminate | constructor; [exact Hc | constructor]].
-  cbn [rev app join]. reflexivity.
+  induction dir as [|c r IH]; intros H; [congruence|]. destruct r as [|c2 r2]; [reflexivity|].
+  change (join ((c :: c2 :: r2) ++ [name])) with (c ++ SLASH :: join ((c2 :: r2) ++ [name])).
+  rewrite IH by discriminate. change (join (c :: c2 :: r2)) with (c ++ SLASH :: join (c2 :: r2)).
+  rewrite <- app_assoc. reflexivity.
+Qed.
+
+(* classify is the inverse of render: a string classified as plain IS its components joined by '/' (+ '/') *)
+Lemma classify_plain_render s comps tr : classify s = SPlain comps tr -> comps <> [] /\ s = render comps tr.
+Proof.
+  unfold classify.
+  destruct (str_eqb s []); [discriminate|]. destruct (str_eqb s [SLASH]); [discriminate|].
+  destruct (str_eqb s [DOT; DOT]); [discriminate|]. destruct (str_eqb s [DOT]); [discriminate|].
+  destruct (forallb plain (split_slash s)) eqn:F.
+  - intros H. injection H as <- <-. unfold render. rewrite app_nil_r, join_split. split; [|reflexivity].
+    apply split_slash_ne.
+  - destruct (rev (split_slash s)) as [|[|x0 l0] [|c1 r1]] eqn:R; try discriminate.
+    destruct (forallb plain (c1 :: r1)); [|discriminate]. intros H. injection H as <- <-.
+    assert (E : split_slash s = rev (c1 :: r1) ++ [[]]).
+    { apply (f_equal (@rev str)) in R. rewrite rev_involutive in R. exact R. }
+    assert (Hne : rev (c1 :: r1) <> []) by (cbn [rev]; destruct (rev r1); discriminate).
+    split; [exact Hne|]. unfold render. change (rev r1 ++ [c1]) with (rev (c1 :: r1)). rewrite (join_snoc_slash _ Hne), <- E, join_split. reflexivity.
+Qed.
+
+(* the slices Path::parent / Path::file_name return in the model are sub-slices of the caller's string *)
+Lemma path_parent_substring s v : path_parent s = QSome v -> substring v s.
+Proof.
+  unfold path_parent. destruct (classify s) as [| | | |comps tr|] eqn:C; try discriminate.
+  1,2: intros H; injection H as <-; exists [], s; reflexivity.
+  destruct (classify_plain_render s comps tr C) as (Hne & ->).
+  destruct (rev comps) as [|file rinit] eqn:R; [discriminate|]. intros H. injection H as <-.
+  assert (E : comps = rev rinit ++ [file]) by (apply (f_equal (@rev str)) in R; rewrite rev_involutive in R; exact R).
+  subst comps. unfold render. destruct (rev rinit) as [|d0 dr] eqn:Ed.
+  - exists [], (join ([] ++ [file]) ++ (if tr then [SLASH] else [])). reflexivity.
+  - rewrite join_snoc by discriminate. exists [], (SLASH :: file ++ (if tr then [SLASH] else [])).
+    cbn [app]. rewrite <- app_assoc. reflexivity.
+Qed.
+Lemma path_file_name_substring s v : path_file_name s = QSome v -> substring v s.
+Proof.
+  unfold path_file_name. destruct (classify s) as [| | | |comps tr|] eqn:C; try discriminate.
+  destruct (classify_plain_render s comps tr C) as (Hne & ->).
+  destruct (rev comps) as [|file rinit] eqn:R; [discriminate|]. intros H. injection H as <-.
+  assert (E : comps = rev rinit ++ [file]) by (apply (f_equal (@rev str)) in R; rewrite rev_involutive in R; exact R).
+  subst comps. unfold render. destruct (rev rinit) as [|d0 dr] eqn:Ed.
+  - exists [], (if tr then [SLASH] else []). reflexivity.
+  - rewrite join_snoc by discriminate. exists (join (d0 :: dr) ++ [SLASH]), (if tr then [SLASH] else []).
+    rewrite <- !app_assoc. reflexivity.
+Qed.
+
+(* hence neither unwrap can fail on a caller string that is a str *)
+Lemma get_parent_no_panic s : valid_str s = true -> get_parent_as_string s <> SPanic.
+Proof.
+  intros H. unfold get_parent_as_string. destruct (path_parent s) as [v| |] eqn:P; try discriminate.
+  rewrite (os_to_str_substring v s H (path_parent_substring s v P)). discriminate.
+Qed.
+Lemma get_file_name_no_panic s : valid_str s = true -> get_file_name s <> SPanic.
+Proof.
+  intros H. unfold get_file_name. destruct (path_file_name s) as [v| |] eqn:P; try discriminate.
+  rewrite (os_to_str_substring v s H (path_file_name_substring s v P)). discriminate.
+Qed.
+Lemma parent_and_file_no_panic s : valid_str s = true -> parent_and_file s <> PFPanic.
+Proof.
+  intros H. unfold parent_and_file. pose proof (get_parent_no_panic s H) as P1. pose proof (get_file_name_no_panic s H) as P2.
+  destruct (get_parent_as_string s) as [par|e| |]; try discriminate; [|congruence].
+  destruct (get_file_name s) as [f|e| |]; try discriminate; [|congruence].
+  destruct (str_eqb par []); discriminate.
+Qed.
+Theorem localize_no_panic g l s : valid_str s = true -> localize g l s <> LPanic.
+Proof.
+  intros H. unfold localize. destruct g; try discriminate;
+    (pose proof (parent_and_file_no_panic s H) as P; destruct (parent_and_file s) as [d f|e| |]; try discriminate; try congruence;
+     destruct (infix _ l); discriminate).
+Qed.
+
+(* the result is a String again (every marker is ASCII), and "unmodelled" means exactly: not one of the modelled path shapes *)
+Lemma infix_valid g l m : infix g l = Some m -> valid_str m = true.
+Proof. destruct g, l; cbn [infix]; intros H; try discriminate; injection H as <-; reflexivity. Qed.
+Lemma sres_ok_valid_parent s t : valid_str s = true -> get_parent_as_string s = SOk t -> valid_str t = true.
+Proof.
+  intros H. unfold get_parent_as_string. destruct (path_parent s) as [v| |] eqn:P; try discriminate.
+  rewrite (os_to_str_substring v s H (path_parent_substring s v P)). intros E. injection E as <-.
+  exact (valid_substring v s H (path_parent_substring s v P)).
+Qed.
+Lemma sres_ok_valid_file s t : valid_str s = true -> get_file_name s = SOk t -> valid_str t = true.
+Proof.
+  intros H. unfold get_file_name. destruct (path_file_name s) as [v| |] eqn:P; try discriminate.
+  rewrite (os_to_str_substring v s H (path_file_name_substring s v P)). intros E. injection E as <-.
+  exact (valid_substring v s H (path_file_name_substring s v P)).
+Qed.
+Lemma unmodelled_other s : parent_and_file s = PFUnmodelled -> classify s = SOther.
+Proof.
+  unfold parent_and_file, get_parent_as_string, get_file_name, path_parent, path_file_name.
+  destruct (classify s) as [| | | |comps tr|] eqn:C; try reflexivity; cbn [os_to_str valid_str forallb]; try discriminate.
+  destruct (classify_plain_render s comps tr C) as (Hne & _).
+  destruct (rev comps) as [|file rinit] eqn:R.
+  - exfalso. apply Hne. apply (f_equal (@rev str)) in R. rewrite rev_involutive in R. exact R.
+  - destruct (os_to_str (join (rev rinit))); [|discriminate]. destruct (os_to_str file); [|discriminate].
+    destruct (str_eqb _ []); discriminate.
+Qed.
+Theorem localize_total g l s : valid_str s = true ->
+  match localize g l s with
+  | LOk r => valid_str r = true
+  | LErr _ => True
+  | LUnmodelled => classify s = SOther
+  | LPanic => False
+  end.
+Proof.
+  intros H. pose proof (localize_no_panic g l s H) as NP. unfold localize in *.
+  destruct g; [exact H| | | | |];
+    (destruct (parent_and_file s) as [d f|e| |] eqn:PF; [|exact I|congruence|apply unmodelled_other; exact PF];
+     destruct (infix _ l) as [m|] eqn:IX; [|exact Logic.I];
+     unfold parent_and_file in PF;
+     destruct (get_parent_as_string s) as [par|e| |] eqn:GP; try discriminate;
+     destruct (get_file_name s) as [fl|e| |] eqn:GF; try discriminate;
+     pose proof (sres_ok_valid_parent s par H GP) as V1; pose proof (sres_ok_valid_file s fl H GF) as V2;
+     pose proof (infix_valid _ _ _ IX) as V3;
+     destruct (str_eqb par []); injection PF as <- <-; rewrite !valid_str_app, ?V1, ?V2, ?V3; reflexivity).
+Qed.
+
+(* get_parent_and_file_name on structured paths: the parent and the file name when both are strs, a panic otherwise
+   (on a valid caller string the first case always applies: parent_and_file_multi / _single below) *)
+Lemma parent_and_file_multi_gen dir name tr : dir <> [] -> Forall plainP (dir ++ [name]) ->
+  parent_and_file (render (dir ++ [name]) tr) =
+    if andb (valid_str (join dir)) (valid_str name) then PFOk (join dir) name else PFPanic.
+Proof.
+  intros Hne Hp. unfold parent_and_file, get_parent_as_string, get_file_name, path_parent, path_file_name.
+  rewrite classify_render; [|destruct dir; discriminate | exact Hp].
+  rewrite rev_app_distr. cbn [rev app]. rewrite rev_involutive.
+  apply Forall_app in Hp. destruct Hp as [Hd _]. unfold os_to_str.
+  destruct (valid_str (join dir)); cbn [andb]; [|reflexivity].
+  destruct (valid_str name); [|reflexivity].
+  destruct (str_eqb_spec (join dir) []) as [E|E]; [exfalso; exact (join_nonempty dir Hne Hd E) | reflexivity].
+Qed.
+Lemma valid_render_parts dir name tr : dir <> [] -> valid_str (render (dir ++ [name]) tr) = true ->
+  valid_str (join dir) = true /\ valid_str name = true.
+Proof.
+  intros Hne. unfold render. rewrite join_snoc by exact Hne. rewrite !valid_str_app. cbn [valid_str forallb].
+  intros H. apply andb_true_iff in H. destruct H as (H & _). apply andb_true_iff in H. destruct H as (H1 & H2).
+  apply andb_true_iff in H2. destruct H2 as (_ & H2). auto.
+Qed.
+Lemma parent_and_file_multi dir name tr : dir <> [] -> Forall plainP (dir ++ [name]) ->
+  valid_str (render (dir ++ [name]) tr) = true ->
+  parent_and_file (render (dir ++ [name]) tr) = PFOk (join dir) name.
+Proof.
+  intros Hne Hp Hv. rewrite parent_and_file_multi_gen by assumption.
+  destruct (valid_render_parts dir name tr Hne Hv) as (-> & ->). reflexivity.
+Qed.
+
+Lemma parent_and_file_single_gen c tr : plainP c ->
+  parent_and_file (render [c] tr) = if valid_str c then PFOk c [] else PFPanic.
+Proof.
+  intros Hc. unfold parent_and_file, get_parent_as_string, get_file_name, path_parent, path_file_name.
+  rewrite classify_render; [|discriminate | constructor; [exact Hc | constructor]].
+  cbn [rev app join os_to_str valid_str forallb]. unfold os_to_str. destruct (valid_str c); reflexivity.
+Qed.
+Lemma parent_and_file_single c tr : plainP c -> valid_str (render [c] tr) = true -> parent_and_file (render [c] tr) = PFOk c [].
+Proof.
+  intros Hc Hv. rewrite parent_and_file_single_gen by exact Hc. unfold render in Hv. cbn [join] in Hv.
+  rewrite valid_str_app in Hv. apply andb_true_iff in Hv. destruct Hv as (-> & _). reflexivity.
 Qed.
